@@ -234,6 +234,43 @@ def listEntry (f : List Nat) (owner0 : Nat) : Entry :=
     deleted := f[0]? == some 46 || owner0 == 45
     filename := cstr f }
 
+/-! ### which index entry an id addresses
+
+  ptttype/types.go : Filename_t.Eq
+  cmsys/record.go  : the confirmation at the end of GetRecord (behind CreateComment, EditArticle, CrossPost,
+                     DeleteArticles and the cursor: every entry point that is handed an id)
+The search itself (FindRecordStartIdx: an exact hit, or the nearest entry when the name is not in the
+index) is modelled under C06; here it is an arbitrary proposal of a position. -/
+
+/-- `Filename_t.Eq`: `types.Cstrcmp(f[2:], f2[2:]) == 0` — the C strings from byte 2 on (creation time
+and suffix) are equal; the type letter / delete mark in the first two bytes is not compared. -/
+def filenameEq (f g : List Nat) : Bool := cstr (f.drop 2) == cstr (g.drop 2)
+
+/-- the end of `cmsys.GetRecord`: the record at the proposed position is returned only if
+`filename.Eq(&fhdr.Filename)`; `eq` is that comparison (the code's is `filenameEq`). -/
+def confirmWith (eq : List Nat → List Nat → Bool) (idx : List (List Nat)) (want : List Nat) (pos : Nat) :
+    Option Nat :=
+  match idx[pos]? with
+  | some h => if eq want h then some pos else none
+  | none => none
+
+/-- an entry point that is handed an id: decode it (`ArticleID.ToFilename`), let the search propose a
+position, confirm. -/
+def resolveId (idx : List (List Nat)) (id : List Nat) (propose : List (List Nat) → List Nat → Nat) :
+    M (Option Nat) := do
+  let f ← articleIDToRaw id
+  pure (confirmWith filenameEq idx f (propose idx f))
+
+/-- the last position whose entry `Eq`s the name: what GetRecord answers on an index in time order
+(C06, `getRecord_eq_lookup`). -/
+def lookupAux : List (List Nat) → List Nat → Nat → Option Nat → Option Nat
+  | [], _, _, acc => acc
+  | h :: rest, want, i, acc => lookupAux rest want (i + 1) (if filenameEq want h then some i else acc)
+
+def lookupId (idx : List (List Nat)) (id : List Nat) : M (Option Nat) := do
+  let f ← articleIDToRaw id
+  pure (lookupAux idx f 0 none)
+
 /-! ### the names the property is about -/
 
 /-- fixed-width decimal rendering (most significant first). -/
